@@ -504,6 +504,25 @@ theorem tokens_determine_atoms (m₁ m₂ : Mol) (env₁ env₂ : Env) (opts : O
   obtain ⟨sc2, f2⟩ := fmt m₂ env₂ rs₂ ord₂ h₂ (heq ▸ ha)
   exact atom_token_determines hc f1 f2
 
+/-- **tokens_determine_hcount**: with equal token lists, an atom written in brackets has the same hydrogen count in both
+    molecules (the count of an unbracketed organic-subset atom is implied by the valence rules of the reader, C03/C04). -/
+theorem tokens_determine_hcount (m₁ m₂ : Mol) (env₁ env₂ : Env) (opts : Opts) (rs₁ rs₂ : List Round) (ord₁ ord₂ : List Nat)
+    (h₁ : smilesRounds m₁ env₁ opts = .ok (rs₁, ord₁)) (h₂ : smilesRounds m₂ env₂ opts = .ok (rs₂, ord₂))
+    (heq : joinRounds rs₁ = joinRounds rs₂) :
+    ∀ n a, WTok.atom n a ∈ joinRounds rs₁ → a.bracket = true →
+      ∃ x y, m₁.atom? n = some x ∧ m₂.atom? n = some y ∧ x.implH.getD 0 = y.implH.getD 0 := by
+  intro n a ha hb
+  have fmt : ∀ (m : Mol) (env : Env) (rs : List Round) (ord : List Nat), smilesRounds m env opts = .ok (rs, ord) →
+      WTok.atom n a ∈ joinRounds rs → ∃ sc, formatAtom m opts sc n = .ok a := by
+    intro m env rs ord h hmem
+    rcases mem_joinRounds rs _ hmem with hd | ⟨r, hr, hro⟩
+    · cases hd
+    · obtain ⟨order, vb', he⟩ := ((smilesRounds_spec m env opts rs ord h).1 r hr).emitted
+      exact ⟨r.sc, emit_atom_formatted m opts r.sc r.castedOut r.tokens r.smi r.vbIn r.out order vb' he n a hro⟩
+  obtain ⟨sc1, f1⟩ := fmt m₁ env₁ rs₁ ord₁ h₁ ha
+  obtain ⟨sc2, f2⟩ := fmt m₂ env₂ rs₂ ord₂ h₂ (heq ▸ ha)
+  exact atom_token_hcount f1 f2 hb
+
 /-- the hypotheses are satisfiable by non-trivial molecules: bicyclo[1.1.0]butane (two ring closures on one atom) and a
     two-component molecule (ring + chain: cyclopropane and ethane, ids interleaved) are well formed and are written -/
 def twoComp : Mol :=
